@@ -999,6 +999,9 @@ func (x g) words(maxWords int, unicodePct int) string {
 }
 
 func (x g) text(html bool) string {
+	if x.p(4) { // empty content, or only a line end
+		return []string{"", "", "\r\n"}[x.n(3)]
+	}
 	var sb strings.Builder
 	if html {
 		sb.WriteString("<p>")
@@ -1052,6 +1055,9 @@ func (x g) fileName() string {
 }
 
 func (x g) content() []byte {
+	if x.p(5) {
+		return nil
+	}
 	b := make([]byte, x.n(200))
 	for i := range b {
 		b[i] = byte(x.n(256))
@@ -1273,6 +1279,38 @@ func Run(r *hx.Run, replay []hx.Case) {
 			p0 := body(e0, false, 0)
 			runRT(r, r.NewID(), spec{enc: def, subject: "s", fromName: "Sender", nTo: 1, date: 1700000000, plain: &p0, penc: e0,
 				atts: []fileSpec{{"a.txt", []byte("attached")}}, embs: []fileSpec{{"i.png", []byte("\x89PNG")}}})
+		}
+	}
+	// EMPTY contents: an empty text/plain next to HTML (and the reverse), an empty body with an attachment, empty
+	// attachment / embed bytes, a part consisting only of a line end - under quoted-printable, base64, 8bit; every
+	// part and every file must come back (count, order, type, content)
+	for _, enc := range []string{"quoted-printable", "base64", "8bit"} {
+		empty, crlf, lf, txt, htm := "", "\r\n", "\r\n\r\n", "some text", "<p>html</p>" // (bare LF is canonicalised by quoted-printable: C10_body_roundtrip)
+		nofile, ef := []fileSpec(nil), []fileSpec{{"empty.txt", nil}}
+		ff, ef2 := []fileSpec{{"a.txt", []byte("attached")}}, []fileSpec{{"e1.bin", nil}, {"full.bin", []byte("x")}, {"e2.bin", nil}}
+		type ec struct {
+			plain, html *string
+			extra       []partSpec
+			atts, embs  []fileSpec
+		}
+		for _, c := range []ec{
+			{&empty, &htm, nil, nofile, nofile}, {&txt, &empty, nil, nofile, nofile}, {&empty, &empty, nil, nofile, nofile},
+			{&empty, nil, nil, nofile, nofile}, {nil, &empty, nil, nofile, nofile},
+			{&empty, nil, nil, ff, nofile}, {&empty, nil, nil, nofile, ff}, {&empty, &htm, nil, ff, ff}, {&empty, &empty, nil, ef, ef},
+			{&txt, nil, nil, ef, nofile}, {&txt, nil, nil, nofile, ef}, {&txt, &htm, nil, ef2, ef2}, {&empty, nil, nil, ef, nofile},
+			{&crlf, nil, nil, nofile, nofile}, {&crlf, &htm, nil, nofile, nofile}, {&txt, &crlf, nil, ff, nofile}, {&lf, &htm, nil, nofile, ff},
+			{&txt, &htm, []partSpec{{false, "", ""}}, nofile, nofile}, {&empty, &htm, []partSpec{{true, "", ""}, {false, "last", ""}}, ff, nofile},
+			{&txt, &empty, []partSpec{{false, "\r\n", ""}}, nofile, ef},
+		} {
+			runRT(r, r.NewID(), spec{enc: enc, subject: "empty contents", fromName: "Sender", nTo: 1, date: 1700000000,
+				plain: c.plain, html: c.html, extra: c.extra, atts: c.atts, embs: c.embs})
+		}
+		// an empty part whose own encoding differs from the message's
+		for _, pe := range []string{"quoted-printable", "base64", "8bit"} {
+			if pe != enc {
+				runRT(r, r.NewID(), spec{enc: enc, subject: "empty contents", fromName: "Sender", nTo: 1, date: 1700000000,
+					plain: &empty, penc: pe, html: &htm, atts: ef})
+			}
 		}
 	}
 	for i := 0; i < nrt && !r.Expired(); i++ {
